@@ -61,6 +61,10 @@ def materialise(path, blocks, placement, rng, coin='bitcoin', h0=0, decoys=(), e
         d.extra_files['blkindex.dat'] = b'not a block file'
         d.extra_files['rev00000.dat'] = rng.randbytes(30)
         d.extra_files['blkx1.dat'] = rng.randbytes(30)
+        # files whose names merely resemble those of indexed blk files (backups and the like) are named by no record either
+        for real in list(fileno.values())[:4]:
+            for nm in ('blk%05d.bak.dat' % real, 'blk%05d.dat.dat' % real, 'blk%d.5.dat' % real, 'blk%05d.dat.bak' % real, 'xblk%05d.dat' % real):
+                d.extra_files[nm] = struct.pack('<II', d.magic, 81) + foreign_block(rng)['raw'] + rng.randbytes(200)
     d.core_extras()
     used = {}
 
